@@ -126,6 +126,11 @@ def h_enumerate(c, r):
     c.prove(sx.And(*[s.get_resolution(k) == r for k in K]), "enumerated-ids-have-resolution-r")
 
 
+def conf_serialization(seed=0):
+    from . import conformance
+    return conformance.serialization(seed)
+
+
 def jobs(tier, seed):
     js = []
     for r in range(0, 4 if tier == "quick" else 5):
@@ -138,6 +143,7 @@ def jobs(tier, seed):
         pairs = [(a, b) for a, b in pairs if b - a <= 2 or a <= 2 or b == 29]
     for a, b in pairs:
         js.append(Job("cross[%d,%d]" % (a, b), "h_cross_resolution", {"r1": a, "r2": b}, weight=0.5))
+    js.append(Job("conformance[test-ids.json]", "conf_serialization", {}, {"direct": True}, weight=5))
     js.append(Job("res-too-large", "h_res_too_large"))
     js.append(Job("count", "h_count"))
     return js
